@@ -51,7 +51,7 @@ namespace sim {
   static int region = 0;            // parallel region counter (threads are numbered from 1 again in every region)
   static Switch SW[MAXSW];
   static int nsw = 0;
-  static long switchesFired = 0, totalSteps = 0;
+  static long switchesFired = 0, totalSteps = 0, strayUnlocks = 0;
 
   // trace
   static bool tracing = false;
@@ -346,9 +346,14 @@ extern "C" {
     if (mx.owner == selfId) {
       if (--mx.count <= 0) { mx.owner = -1; mx.count = 0; wake(m); }
     } else if (mx.owner == -1) {
-      // unlock of a mutex nobody holds: undefined behaviour in POSIX; tolerated here (not a listed outcome)
+      // unlock of a mutex nobody holds: undefined behaviour in POSIX, harmless with the futex implementation
+      if (active && checking) ++strayUnlocks;
     } else {
-      // unlocking a mutex held by another thread releases it (this is what the futex implementation does)
+      // Unlocking a mutex that ANOTHER thread holds: the futex implementation releases it, so the owner's
+      // critical section silently loses its protection.  Undefined behaviour in POSIX; reported.
+      if (active && checking)
+        report("unlock-of-foreign-mutex", "thread %d unlocks mutex %p which thread %d holds: that thread's critical section is no longer exclusive",
+               selfId, (void*) m, mx.owner);
       mx.owner = -1; mx.count = 0; wake(m);
     }
     point(4, m, 0);
@@ -422,6 +427,9 @@ extern "C" {
 namespace sim {
   static unsigned long long simClockNs = 1700000000ull * 1000000000ull;
   static unsigned long long entropyCalls = 0;
+  static unsigned long long entropyBase = 0;
+  static bool entropyPerProcess = true;     // until a run starts, processes must not share temp-file names
+  void resetEntropy() { entropyPerProcess = false; entropyBase = 0; entropyCalls = 0; simClockNs = 1700000000ull * 1000000000ull; }
 }
 extern "C" {
   time_t time(time_t *t) { sim::simClockNs += 1000; time_t v = (time_t) (sim::simClockNs / 1000000000ull); if (t) *t = v; return v; }
@@ -437,7 +445,8 @@ extern "C" {
   }
   // unsigned int std::random_device::_M_getval()
   unsigned int _ZNSt13random_device9_M_getvalEv(void *) {
-    unsigned long long x = (++sim::entropyCalls) * 0x9E3779B97F4A7C15ull;
+    if (sim::entropyPerProcess && !sim::entropyBase) sim::entropyBase = (unsigned long long) getpid() * 0x2545F4914F6CDD1Dull;
+    unsigned long long x = (sim::entropyBase + (++sim::entropyCalls)) * 0x9E3779B97F4A7C15ull;
     x = (x ^ (x >> 30)) * 0xBF58476D1CE4E5B9ull;
     x = (x ^ (x >> 27)) * 0x94D049BB133111EBull;
     return 1000000000u + (unsigned int) ((x ^ (x >> 31)) % 3000000000ull);   // always ten digits
